@@ -148,7 +148,7 @@ func (o op) String() string {
 
 func alphabet() []op {
 	return []op{
-		{"Save", cond(u0, "c1", 1)}, {"Save", cond(u0, "c1", 2)}, {"Save", cond(u0, "c2", 1)}, {"Save", cond(u1, "d1", 1)},
+		{"Save", cond(u0, "c1", 1)}, {"Save", cond(u0, "c1", 2)}, {"Save", cond(u0, u0+".state", 1)}, {"Save", cond(u1, "d1", 1)}, // (<upstream>.state is the name under which the limiter keeps an upstream's totals)
 		{"Delete", cond(u0, "c1", 0)}, {"DeleteUpstream", nil}, {"Flush", nil}, {"Stop", nil},
 	}
 }
@@ -482,7 +482,7 @@ func harnesses(c *ev.Check, b int) []xa.Harness {
 
 func main() {
 	c := ev.Start("C19", "fault_enumeration")
-	vsched.DropGo = true // the store's only goroutine is its periodic flush loop; flushes are triggered through Flush()/Stop()
+	vsched.DropGo = true                       // the store's only goroutine is its periodic flush loop; flushes are triggered through Flush()/Stop()
 	vtime.SetVirtual(time.Unix(1700000000, 0)) // retry back-off sleeps of client-go/apimachinery advance the virtual clock instead of waiting
 	c.Assume = []string{
 		"the fake clientset's object tracker is the durable state; reactors make it behave like the real API on the two points that matter here: a failing call returns a non-nil empty object with the error (typed REST client), and create/update of a nameless object is refused",
@@ -515,7 +515,7 @@ func main() {
 	c.Finish(map[string]interface{}{
 		"evaluations":         c.Counter("runs") + c.Counter("schedules"),
 		"distinct_nontrivial": c.DistinctCount("run_outcomes") + c.DistinctCount("flush_race_outcomes"),
-		"rule":                "every operation sequence of length <= L over {Save c1=1, Save c1=2, Save c2, Save of a shard-1 condition, Delete c1, DeleteUpstream, Flush, Stop} in write-through and periodic mode; for each: the fault-free run, every (API call index x {NotFound, Conflict, AlreadyExists, ServerTimeout}) and every crash point; plus all interleavings (preemption-bounded) of Flush racing Delete/DeleteUpstream/Save. Distinct = (mode, injection kind, API calls made, crashed, verdict) classes.",
+		"rule":                "every operation sequence of length <= L over {Save c1=1, Save c1=2, Save of the upstream's <upstream>.state condition, Save of a shard-1 condition, Delete c1, DeleteUpstream, Flush, Stop} in write-through and periodic mode; for each: the fault-free run, every (API call index x {NotFound, Conflict, AlreadyExists, ServerTimeout}) and every crash point; plus all interleavings (preemption-bounded) of Flush racing Delete/DeleteUpstream/Save. Distinct = (mode, injection kind, API calls made, crashed, verdict) classes.",
 		"sequence_len_bound":  L,
 		"schedules":           c.Counter("schedules"),
 	})
